@@ -63,7 +63,9 @@ CLAIMED = {
          "(machine layer, from Rx.Sim.stdOp_sim_cancel) in the object machine - StreamController transliterated call by call - the observer an operator handed "
          "to its source is unsubscribed exactly when the kernel semantics says cancelled, from ANY ready start world; take/take_while stop an endless producer; for the POLLING producers themselves (repeat, interval over the default scheduler) "
          "Rx.Sim.stdOp_sim_repeat / stdOp_sim_interval / take_repeat / take_interval (SimInterval.lean): for every kernel, world and loop bound the machine run is "
-         "the kernel run over the producer's prefix and the producer has stopped once the kernel cancelled (independent of the bound that stands for endless). "
+         "the kernel run over the producer's prefix and the producer has stopped once the kernel cancelled (independent of the bound that stands for endless); "
+         "Rx.C06late.late_attach_inert: for every controller and EVERY source program, new_observer + inner_subscribe after the subscriber has gone leave one "
+         "dead observer and run nothing of the source. "
          "Multi-input teardown is covered by the history machines of C03 (per-input cancellation) and by exploration. Tie: probed sources recording "
          "is_subscribed before every emission, subject observer counts, every terminating cause of the statement (incl. connectables and two hot inputs that keep "
          "emitting after the operator's decision; closures given to operators that end the subscription when called); TornDown predicate on implementation "
